@@ -52,3 +52,200 @@ Proof.
   - apply (vi_run_with_equiv _ _ (ggam g)). apply (cq_ok_sim (dense_of_g g)); [apply compute_q_sparse_ok; exact Hns| apply compute_q_ok].
   - apply (pe_run_with_equiv _ _ (ggam g)). apply (cq_ok_sim (dense_of_g g)); [apply compute_q_sparse_ok; exact Hns| apply compute_q_ok].
 Qed.
+
+(* ================================================================== entries in the dropped band *)
+(* The general case: SparseModel drops entries in (0,1e-6].  The stored rows p' satisfy 0 <= p' <= p and,
+   since the constructor validates the stored table (sparse_accepts), lose at most epsS of mass per row.
+   One backup of the sparse model differs from one backup of the dense model by at most
+       eta = epsS + rmax*delta + gamma*B*delta         (delta = lost mass per row, |r| <= rmax, |V| <= B)
+   and the h-step values by at most eta/(1-gamma) (contraction of the dense operator). *)
+
+Definition row_loss_le (g : gmodel) (delta : Q) : Prop :=
+  forall s a, (s < gS g)%nat -> (a < gA g)%nat ->
+    qsum (map (fun s1 => gP g s a s1 - drop_small (gP g s a s1)) (seq 0 (gS g))) <= delta.
+Definition rewards_bounded (g : gmodel) (rmax : Q) : Prop :=
+  forall s a s1, (s < gS g)%nat -> (a < gA g)%nat -> (s1 < gS g)%nat -> - rmax <= gR g s a s1 /\ gR g s a s1 <= rmax.
+Definition bounded (B : Q) (v : vec) : Prop := forall i, - B <= nthq v i /\ nthq v i <= B.
+Definition probs_nonneg (g : gmodel) : Prop :=
+  forall s a s1, (s < gS g)%nat -> (a < gA g)%nat -> (s1 < gS g)%nat -> 0 <= gP g s a s1.
+Definition sparse_eta (g : gmodel) (delta rmax B : Q) : Q := epsS + rmax * delta + ggam g * (B * delta).
+
+Lemma drop_small_near : forall y, - epsS <= drop_small y - y /\ drop_small y - y <= epsS.
+Proof.
+  intros y. unfold drop_small, eqSmall. destruct (Qle_bool (qabs (0 - y)) epsS) eqn:B.
+  - apply Qle_bool_iff in B. apply qabs_bounds in B. split; lra.
+  - unfold epsS. split; lra.
+Qed.
+
+Lemma drop_small_nonneg : forall x, 0 <= x -> 0 <= drop_small x /\ drop_small x <= x.
+Proof. intros x Hx. unfold drop_small. destruct (eqSmall 0 x); split; lra. Qed.
+
+Lemma weighted_sum_bound : forall (w x : nat -> Q) B l,
+  (forall i, In i l -> 0 <= w i) -> (forall i, In i l -> - B <= x i /\ x i <= B) ->
+  - (B * qsum (map w l)) <= qsum (map (fun i => w i * x i) l) /\
+  qsum (map (fun i => w i * x i) l) <= B * qsum (map w l).
+Proof.
+  intros w x B. induction l as [|i l IH]; intros Hw Hx; cbn [map qsum]; [split; lra|].
+  destruct IH as [L U]; [intros; apply Hw; right; assumption| intros; apply Hx; right; assumption|].
+  pose proof (Hw i (or_introl eq_refl)). destruct (Hx i (or_introl eq_refl)). split; nra.
+Qed.
+
+Lemma qsum_map_sub : forall (A : Type) (f g : A -> Q) l,
+  qsum (map (fun x => f x - g x) l) == qsum (map f l) - qsum (map g l).
+Proof. induction l as [|x l IH]; cbn [qsum map]; [lra| rewrite IH; lra]. Qed.
+
+Lemma trow_sparse_of_g : forall g s a, (s < gS g)%nat -> (a < gA g)%nat ->
+  trow (sparse_of_g g) s a = map (fun s1 => drop_small (gP g s a s1)) (seq 0 (gS g)).
+Proof.
+  intros g s a Hs Ha. unfold trow, sparse_of_g, row. cbn [P].
+  rewrite nth_map_seq by exact Ha. rewrite nth_map_seq by exact Hs. reflexivity.
+Qed.
+
+(* look-ahead tables of the two models in index-sum form *)
+Lemma q_of_dense_sum : forall g v s a, (s < gS g)%nat -> (a < gA g)%nat ->
+  q_of (dense_of_g g) v s a ==
+  qsum (map (fun i => gR g s a i * gP g s a i) (seq 0 (gS g))) +
+  ggam g * qsum (map (fun i => gP g s a i * nthq v i) (seq 0 (gS g))).
+Proof.
+  intros g v s a Hs Ha. unfold q_of. rewrite (trow_dense_of_g g s a Hs Ha), dot_map_seq.
+  change (gam (dense_of_g g)) with (ggam g).
+  change (row (R (dense_of_g g)) s) with (row (mtab (gS g) (gA g) (fun s a => accum 0 (fun s1 => gR g s a s1 * gP g s a s1) (gS g))) s).
+  fold (mget (mtab (gS g) (gA g) (fun s a => accum 0 (fun s1 => gR g s a s1 * gP g s a s1) (gS g))) s a).
+  rewrite (mtab_get _ _ _ s a Hs Ha), accum_qsum. lra.
+Qed.
+
+Lemma q_of_sparse_sum : forall g v s a, (s < gS g)%nat -> (a < gA g)%nat ->
+  q_of (sparse_of_g g) v s a ==
+  drop_small (accum 0 (fun i => gR g s a i * drop_small (gP g s a i)) (gS g)) +
+  ggam g * qsum (map (fun i => drop_small (gP g s a i) * nthq v i) (seq 0 (gS g))).
+Proof.
+  intros g v s a Hs Ha. unfold q_of. rewrite (trow_sparse_of_g g s a Hs Ha), dot_map_seq.
+  change (gam (sparse_of_g g)) with (ggam g).
+  change (row (R (sparse_of_g g)) s) with
+    (row (mtab (gS g) (gA g) (fun s a => drop_small (accum 0 (fun s1 => gR g s a s1 * drop_small (gP g s a s1)) (gS g)))) s).
+  fold (mget (mtab (gS g) (gA g) (fun s a => drop_small (accum 0 (fun s1 => gR g s a s1 * drop_small (gP g s a s1)) (gS g)))) s a).
+  rewrite (mtab_get _ _ _ s a Hs Ha). reflexivity.
+Qed.
+
+Lemma q_of_sparse_close : forall g delta rmax B v s a,
+  probs_nonneg g -> row_loss_le g delta -> rewards_bounded g rmax -> 0 <= B -> 0 <= rmax -> 0 < ggam g ->
+  bounded B v -> (s < gS g)%nat -> (a < gA g)%nat ->
+  - sparse_eta g delta rmax B <= q_of (sparse_of_g g) v s a - q_of (dense_of_g g) v s a /\
+  q_of (sparse_of_g g) v s a - q_of (dense_of_g g) v s a <= sparse_eta g delta rmax B.
+Proof.
+  intros g delta rmax B v s a Hnn Hloss Hrb HB Hrm Hg Hbv Hs Ha.
+  rewrite (q_of_dense_sum g v s a Hs Ha), (q_of_sparse_sum g v s a Hs Ha).
+  pose proof (accum_qsum (fun i => gR g s a i * drop_small (gP g s a i)) (gS g) 0) as EA.
+  set (w := fun i => gP g s a i - drop_small (gP g s a i)).
+  assert (Hw : forall i, In i (seq 0 (gS g)) -> 0 <= w i).
+  { intros i Hi. apply in_seq in Hi. unfold w. destruct (drop_small_nonneg (gP g s a i)); [apply Hnn; lia| lra]. }
+  pose proof (Hloss s a Hs Ha) as Hl. fold w in Hl.
+  assert (Hw0 : 0 <= qsum (map w (seq 0 (gS g)))).
+  { clear - Hw. induction (seq 0 (gS g)) as [|i l IH]; cbn [map qsum]; [lra|].
+    pose proof (Hw i (or_introl eq_refl)). assert (0 <= qsum (map w l)) by (apply IH; intros; apply Hw; right; assumption). lra. }
+  (* rewards *)
+  destruct (weighted_sum_bound w (fun i => gR g s a i) rmax (seq 0 (gS g)) Hw) as [LR UR].
+  { intros i Hi. apply in_seq in Hi. apply Hrb; lia. }
+  assert (ER : qsum (map (fun i => gR g s a i * drop_small (gP g s a i)) (seq 0 (gS g))) ==
+               qsum (map (fun i => gR g s a i * gP g s a i) (seq 0 (gS g))) - qsum (map (fun i => w i * gR g s a i) (seq 0 (gS g)))).
+  { rewrite <- qsum_map_sub. apply qsum_map_ext. intros i _. unfold w. lra. }
+  (* values *)
+  destruct (weighted_sum_bound w (fun i => nthq v i) B (seq 0 (gS g)) Hw) as [LV UV].
+  { intros i _. apply Hbv. }
+  assert (EV : qsum (map (fun i => drop_small (gP g s a i) * nthq v i) (seq 0 (gS g))) ==
+               qsum (map (fun i => gP g s a i * nthq v i) (seq 0 (gS g))) - qsum (map (fun i => w i * nthq v i) (seq 0 (gS g)))).
+  { rewrite <- qsum_map_sub. apply qsum_map_ext. intros i _. unfold w. lra. }
+  destruct (drop_small_near (accum 0 (fun i => gR g s a i * drop_small (gP g s a i)) (gS g))) as [LD UD].
+  unfold sparse_eta. rewrite EV.
+  set (SW := qsum (map w (seq 0 (gS g)))) in *.
+  set (SR := qsum (map (fun i => w i * gR g s a i) (seq 0 (gS g)))) in *.
+  set (SV := qsum (map (fun i => w i * nthq v i) (seq 0 (gS g)))) in *.
+  assert (rmax * SW <= rmax * delta) by nra. assert (B * SW <= B * delta) by nra.
+  assert (ggam g * SV <= ggam g * (B * delta)) by nra.
+  assert (- (ggam g * (B * delta)) <= ggam g * SV) by nra.
+  split; lra.
+Qed.
+
+Lemma T_op_sparse_close : forall g delta rmax B v,
+  probs_nonneg g -> row_loss_le g delta -> rewards_bounded g rmax -> 0 <= B -> 0 <= rmax -> 0 < ggam g ->
+  (0 < gA g)%nat -> bounded B v ->
+  close (sparse_eta g delta rmax B) (T_op (sparse_of_g g) v) (T_op (dense_of_g g) v).
+Proof.
+  intros g delta rmax B v Hnn Hloss Hrb HB Hrm Hg HA Hbv. unfold T_op, close.
+  change (nS (sparse_of_g g)) with (gS g). change (nA (sparse_of_g g)) with (gA g).
+  change (nS (dense_of_g g)) with (gS g). change (nA (dense_of_g g)) with (gA g).
+  apply Forall2_map_in. intros s Hs. apply in_seq in Hs.
+  apply maxl_map_close; [apply seq_nonempty; exact HA|].
+  intros a Ha. apply in_seq in Ha. apply (q_of_sparse_close g delta rmax B v s a); try assumption; lia.
+Qed.
+
+Lemma wf_dense_probs_nonneg : forall g, wf_mdp (dense_of_g g) -> probs_nonneg g.
+Proof.
+  intros g Hwf s a s1 Hs Ha Hs1.
+  destruct (wf_row_dist (dense_of_g g) s a Hwf Hs Ha) as [Hn _]. rewrite (trow_dense_of_g g s a Hs Ha) in Hn.
+  unfold nonneg in Hn. rewrite Forall_forall in Hn. apply Hn. apply (in_map (fun s1 => gP g s a s1)). apply in_seq; lia.
+Qed.
+
+(* h-step values of the sparse and of the dense model *)
+Theorem sparse_dp_close_lemma : forall g delta rmax B h, wf_mdp (dense_of_g g) ->
+  row_loss_le g delta -> rewards_bounded g rmax -> 0 <= delta -> 0 <= B -> 0 <= rmax ->
+  (forall k, (k < h)%nat -> bounded B (dp (sparse_of_g g) k)) ->
+  close (sparse_eta g delta rmax B / (1 - ggam g)) (dp (sparse_of_g g) h) (dp (dense_of_g g) h).
+Proof.
+  intros g delta rmax B h Hwf Hloss Hrb Hd HB Hrm.
+  pose proof Hwf as (_ & HA & Hg0 & Hg1 & _).
+  change (nA (dense_of_g g)) with (gA g) in HA. change (gam (dense_of_g g)) with (ggam g) in Hg0, Hg1.
+  pose proof (wf_dense_probs_nonneg g Hwf) as Hnn.
+  set (eta := sparse_eta g delta rmax B). set (E := eta / (1 - ggam g)).
+  assert (Heta : 0 <= eta).
+  { unfold eta, sparse_eta. pose proof (Qmult_le_0_compat _ _ Hrm Hd). pose proof (Qmult_le_0_compat _ _ HB Hd) as HBd.
+    pose proof (Qmult_le_0_compat _ _ (Qlt_le_weak _ _ Hg0) HBd). unfold epsS. lra. }
+  assert (HE : E * (1 - ggam g) == eta) by (unfold E; field; lra).
+  assert (HE0 : 0 <= E) by (unfold E; apply Qle_shift_div_l; lra).
+  induction h as [|h IH]; intros Hb.
+  - cbn [dp]. apply close_refl. exact HE0.
+  - cbn [dp].
+    assert (Hprev : close E (dp (sparse_of_g g) h) (dp (dense_of_g g) h)) by (apply IH; intros k Hk; apply Hb; lia).
+    pose proof (T_op_sparse_close g delta rmax B (dp (sparse_of_g g) h) Hnn Hloss Hrb HB Hrm Hg0 HA (Hb h (Nat.lt_succ_diag_r h))) as H1.
+    pose proof (T_contraction_lemma (dense_of_g g) _ _ E Hwf HE0 Hprev) as H2.
+    change (gam (dense_of_g g)) with (ggam g) in H2.
+    eapply close_weaken; [| exact (close_trans _ _ _ _ _ H1 H2)]. fold eta. nra.
+Qed.
+
+(* the validation performed by the SparseModel constructor bounds the lost mass by epsS *)
+Lemma sparse_accepts_loss : forall g, wf_mdp (dense_of_g g) -> sparse_accepts g = true -> row_loss_le g epsS.
+Proof.
+  intros g Hwf Hacc s a Hs Ha. unfold sparse_accepts in Hacc. rewrite forallb_forall in Hacc.
+  assert (Hin : In (nth a (P (sparse_of_g g)) []) (P (sparse_of_g g))).
+  { apply nth_In. unfold sparse_of_g. cbn [P]. rewrite map_length, seq_length. exact Ha. }
+  specialize (Hacc _ Hin). rewrite forallb_forall in Hacc.
+  assert (Hin2 : In (trow (sparse_of_g g) s a) (nth a (P (sparse_of_g g)) [])).
+  { unfold trow, row. apply nth_In. unfold sparse_of_g. cbn [P]. rewrite nth_map_seq by exact Ha.
+    rewrite map_length, seq_length. exact Hs. }
+  specialize (Hacc _ Hin2). apply andb_prop in Hacc. destruct Hacc as [_ Hsum].
+  unfold eqSmall in Hsum. apply Qle_bool_iff in Hsum. apply qabs_bounds in Hsum.
+  rewrite (trow_sparse_of_g g s a Hs Ha) in Hsum.
+  destruct (wf_row_dist (dense_of_g g) s a Hwf Hs Ha) as [_ Hone]. rewrite (trow_dense_of_g g s a Hs Ha) in Hone.
+  rewrite qsum_map_sub. change (fun s1 : nat => gP g s a s1) with (gP g s a) in Hone. lra.
+Qed.
+
+(* run level: tolerance 0, horizon h, zero start *)
+Theorem sparse_error_term_lemma : forall g rmax B h, wf_mdp (dense_of_g g) -> sparse_accepts g = true ->
+  rewards_bounded g rmax -> 0 <= B -> 0 <= rmax ->
+  (forall k, (k < h)%nat -> bounded B (dp (sparse_of_g g) k)) ->
+  let '(_, vs, _, _) := vi_run (sparse_of_g g) h 0 (repeat 0 (gS g)) in
+  let '(_, vd, _, _) := vi_run (dense_of_g g) h 0 (repeat 0 (gS g)) in
+  close (sparse_eta g epsS rmax B / (1 - ggam g)) vs vd.
+Proof.
+  intros g rmax B h Hwf Hacc Hrb HB Hrm Hb.
+  pose proof Hwf as (_ & HA & _).
+  pose proof (sparse_dp_close_lemma g epsS rmax B h Hwf (sparse_accepts_loss g Hwf Hacc) Hrb ltac:(unfold epsS; lra) HB Hrm Hb) as Hc.
+  pose proof (vi_exact_from_lemma (sparse_of_g g) h (repeat 0 (gS g)) HA (repeat_length 0 (gS g))) as Hs.
+  pose proof (vi_exact_from_lemma (dense_of_g g) h (repeat 0 (gS g)) HA (repeat_length 0 (gS g))) as Hd.
+  destruct (vi_run (sparse_of_g g) h 0 (repeat 0 (gS g))) as [[[vars vs] as_] qs].
+  destruct (vi_run (dense_of_g g) h 0 (repeat 0 (gS g))) as [[[vard vd] ad] qd].
+  destruct Hs as (_ & Hvs & _). destruct Hd as (_ & Hvd & _).
+  rewrite !dp_iterT in Hc. unfold vzero in Hc.
+  change (nS (sparse_of_g g)) with (gS g) in Hc. change (nS (dense_of_g g)) with (gS g) in Hc.
+  eapply close_veq_l; [| apply veq_sym; exact Hvs]. eapply close_veq_r; [exact Hc| apply veq_sym; exact Hvd].
+Qed.
